@@ -60,9 +60,16 @@ def conformance(chk: Check, cov):
         real, stub = builder_part(real), builder_part(stub)
         if real != stub:
             # the model (stub builder) no longer matches cffi's real step sequence: harness, not FFCx
-            print("HARNESS-ERROR: stub builder sequence differs from strace of the real build\n real:", real, "\n stub:", stub)
-            sys.exit(2)
-        n += 1
+            if chk.new_violations:
+                # the exploration of the real protocol code already reported violations: the implementation under test no longer does what the
+                # stub was written against (e.g. it names its files differently from request to request) - reported, not a harness failure
+                chk.violation(f"{PID}:conformance:builder-sequence", f"file-system sequence of a real build differs from the builder model: real {real} / model {stub}",
+                              recipe="mc.jitconf.strace_build", observed=dict(real=real, stub=stub))
+            else:
+                print("HARNESS-ERROR: stub builder sequence differs from strace of the real build\n real:", real, "\n stub:", stub)
+                sys.exit(2)
+        else:
+            n += 1
     except RuntimeError as e:
         chk.assumptions.append(f"strace conformance skipped: {e}")
     tr = jitconf.truncated_import_check()
